@@ -66,11 +66,11 @@ static int decodes_to(const pvec_t* p, const void* frame, size_t flen, const voi
 static void body_comp(void) {
     int entry = vx_choose(5), closingCk = entry >= 3 ? vx_choose(2) : 0;
     pvec_t p; if (entry == 1) { p = pvec_base(0); p.strategy = 0; p.windowLog = 0; p.level = PV_LEVELS[vx_choose(16)]; }
-    else if (entry >= 3) { static const int LV[] = {1, 3, 7, 19}; p = pvec_base(0); p.strategy = 0; p.windowLog = 0; p.level = LV[vx_choose(4)]; }
+    else if (entry >= 3) { static const int LV[] = {1, 3, 5}; p = pvec_base(0); p.strategy = 0; p.windowLog = 0; p.level = LV[vx_choose(3)]; }      /* the closing call does not depend on the match finder: three cheap levels */
     else p = pvec_choose(0);
     if (entry == 4) p.magicless = 0;      /* the buffer-less entry takes level / strategy / window from the vector, nothing else */
     seg_t segs[4]; int base = vx_choose(2); int asz = shape_alphabet_size(0);
-    int segdev = (int)vx_opt_int("--segdev", 4);
+    int segdev = (int)vx_opt_int("--segdev", 4); if (entry >= 3 && segdev > 1) segdev = 1;      /* the closing call sees what is left of the capacity, whatever the input was */
     for (int i = 0; i < 4; i++) { int d = (i < segdev) ? vx_deviate(asz + 1) : 0; segs[i] = d ? shape_alphabet(d - 1, 0) : BASES[base][i]; }
     size_t W = pvec_window(&p); if (!W) W = 1024; size_t B = pvec_block(&p); if (B > W) B = W;
     size_t n = shape_render(segs, 4, W, B, 48, g_src, 450, 0);
@@ -79,7 +79,10 @@ static void body_comp(void) {
     u8* src = (u8*)malloc(n ? n : 1); memcpy(src, g_src, n);
     size_t bound = ZSTD_compressBound(n) + (entry >= 3 ? 16 : 0); long nsucc = 0, ntoosmall = 0; size_t minOK = (size_t)-1;      /* ZSTD_compressBound speaks of single-pass compression; a separately closed frame adds a block header and flush overhead */
     int capstep = (int)vx_opt_int("--capstep", 1); long ntried = 0;
-    for (size_t cap = 0; cap <= bound + 8; cap += ((cap < 48 || cap + 48 > bound) ? 1 : (size_t)capstep)) {
+    /* entries that close the frame by a call of their own: what matters is the room left at that call, so every capacity within 24 bytes of the
+     * frame's full size is tried and the rest is swept coarsely */
+    size_t fullSize = 0; if (entry >= 3) { u8* big = (u8*)malloc(bound + 64); size_t r = compress_closing(&p, entry, closingCk, big, bound + 64, src, n); free(big); fullSize = ZSTD_isError(r) ? 0 : r; }
+    for (size_t cap = 0; cap <= bound + 8; cap += (entry >= 3 ? ((cap < 24 || (cap + 24 >= fullSize && cap <= fullSize + 8)) ? 1 : (cap + 40 < fullSize ? 16 : 1)) : ((cap < 48 || cap + 48 > bound) ? 1 : (size_t)capstep))) {
         u8* dst = (u8*)malloc(cap ? cap : 1); ntried++;
         size_t r = entry >= 3 ? compress_closing(&p, entry, closingCk, dst, cap, src, n) : compress_with(&p, entry, dst, cap, src, n);
         if (ZSTD_isError(r)) {
